@@ -159,6 +159,11 @@ func (f Frame) Into(m proto.Message) bool {
 			return false
 		}
 		x.B = append([]byte(nil), f.Payload...)
+	case *RawM:
+		if f.Kind != "rawm" {
+			return false
+		}
+		x.B = append([]byte(nil), f.Payload...)
 	case *BytesV:
 		if f.Kind != "bytes" || !f.Versioned {
 			return false
